@@ -24,6 +24,7 @@ func TestMain(m *testing.M) {
 	vh.QuietLog()
 	vh.Rule("also: a package whose encoding fails half-way (some bytes produced, then an error), followed by Reset: nothing of it reaches the transport and the next message is exact")
 	vh.Rule("also: in the middle of a message a package that cannot be serialised at all, or only for its first n bytes (n up to several packet bodies): the call reports the error, the message goes on; packets framed correctly, the other packages complete and in order (the n bytes may stay or be taken back); the ENVCHANGE announcing the packet size carries other members before / after PACKSIZE; a message whose caller gives up at the first error without flushing leaves nothing behind")
+	vh.Rule("also: the last message of a history is flushed by closing the channel instead of SendRemainingPackets: everything queued goes out followed by the logout package, EOM on the last packet")
 	vh.Main(m, "C01")
 }
 
